@@ -20,85 +20,8 @@ func init() {
 
 func c10(c *Ctx) {
 	p := c.P
-	walMode := GP("(1 == litefs.(*DB).Mode(p0))", true)
-	rbMode := GP("(1 == litefs.(*DB).Mode(p0))", false)
-	for _, f := range []struct {
-		name   string
-		export bool
-	}{{"litefs.(*DB).WriteSnapshotTo", false}, {"litefs.(*DB).Export", true}} {
-		short := f.name[strings.LastIndex(f.name, ".")+1:]
-		fn := c.F(f.name)
-		if !c.need("capture/"+short, "K9", "function resolves", fn, f.name) {
-			continue
-		}
-		capture := func(in ssa.Instruction) bool {
-			if p.PlainCalls("litefs.(*DB).Pos", "litefs.(*DB).PageN")(in) {
-				return true
-			}
-			switch x := in.(type) {
-			case *ssa.UnOp:
-				if fa, ok := x.X.(*ssa.FieldAddr); ok && x.Op == token.MUL {
-					fp := fieldPathOf(fa)
-					return fp == "litefs.DB.pageSize" || fp == "litefs.DB.wal.frameOffsets"
-				}
-			}
-			return false
-		}
-		c.LockAt("capture/"+short+"/shared", f.name, capture, map[string]string{"shared": "S"}, nil, 4,
-			"position, page count, page size and the WAL frame-offset overlay are read while the SHARED database lock is held", "a rollback-journal writer holds SHARED exclusively while it changes the file: without SHARED the capture can see a half-committed image")
-		c.LockAt("capture/"+short+"/wal-write-lock", f.name, capture, map[string]string{"write": "X"}, gs(walMode), 4,
-			"in WAL mode the capture happens while the WAL WRITE lock is held exclusively", "a WAL commit advances position, page count and overlay in several steps under the WRITE lock: capturing without it can mix two positions")
-		c.LockAt("capture/"+short+"/rollback-no-write-lock", f.name, capture, map[string]string{"write": "U"}, gs(rbMode), 4,
-			"in rollback mode the WRITE lock is not taken (sanity of the mode split)", "")
-		relWrite := func(in ssa.Instruction) bool {
-			return p.PlainCalls("litefs.(*RWMutexGuard).Unlock")(in) && strings.HasSuffix(c.argR(in, 0), ".write")
-		}
-		c.NoPath("capture/"+short+"/nothing-after-write-release", f.name, relWrite, capture, 1,
-			"after the WRITE lock was released none of the captured quantities is read again", "the page loop must use the captured size and overlay, not the live ones")
-		c.Before("capture/"+short+"/write-released", f.name, p.PlainCalls("io.ReadFull"), relWrite, 1, "the WRITE lock is released before pages are read", "holding it for the whole snapshot blocks all writers")
-
-		// page reads
-		pageRead := p.PlainCalls("io.ReadFull", "os.(*File).Seek")
-		want := map[string]string{"shared": "S", "read0": "S", "read1": "S", "read2": "S", "read3": "S", "read4": "S", "write": "U"}
-		if f.export {
-			want["ckpt"], want["recover"] = "S", "S"
-		}
-		c.LockAt("readlocks/"+short, f.name, pageRead, want, nil, 4,
-			"every page read happens with SHARED and all five WAL READ locks held shared"+map[bool]string{true: " (export: plus CKPT and RECOVER)", false: ""}[f.export],
-			"the READ locks block WAL restart and checkpoint back-fill while pages are read from the captured frame offsets; SHARED blocks rollback-mode writers")
-		if !f.export {
-			relCR := func(in ssa.Instruction) bool {
-				if !p.PlainCalls("litefs.(*RWMutexGuard).Unlock")(in) {
-					return false
-				}
-				a := c.argR(in, 0)
-				return strings.HasSuffix(a, ".ckpt") || strings.HasSuffix(a, ".recover")
-			}
-			c.LockAt("readlocks/"+short+"/ckpt-recover-released-late", f.name, relCR, map[string]string{"read0": "S", "read1": "S", "read2": "S", "read3": "S", "read4": "S"}, nil, 2,
-				"CKPT and RECOVER are released only after all five READ locks are held", "between releasing CKPT and holding the READ locks a checkpoint could overwrite pages the snapshot is about to read")
-		}
-		// release discipline
-		c.OnlyIn("release/"+short+"/no-explicit-full-unlock", func(in ssa.Instruction) bool {
-			_, isCall := in.(*ssa.Call)
-			return isCall && p.Calls("litefs.(*GuardSet).Unlock", "litefs.(*GuardSet).UnlockDatabase", "litefs.(*GuardSet).UnlockSHM")(in) && p.FuncName(topFunc(in.Parent())) == f.name
-		}, []string{"(none)"}, 0, "the guard set is never released explicitly in "+short, "")
-		c.Before("release/"+short+"/deferred", f.name, p.PlainCalls("litefs.(*RWMutexGuard).RLock", "litefs.(*RWMutexGuard).Lock"), func(in ssa.Instruction) bool {
-			d, ok := in.(*ssa.Defer)
-			return ok && p.CalleeName(d.Common()) == "litefs.(*GuardSet).Unlock"
-		}, 8, "the full release is deferred before the first lock is taken", "an error exit that leaks a guard blocks every writer forever")
-		c.ErrHandled("release/"+short+"/lock-errors", f.name, p.PlainCalls("litefs.(*RWMutexGuard).RLock", "litefs.(*RWMutexGuard).Lock"), pageRead, 8, "a lock that could not be acquired (context ended) aborts the operation before any page is read", "")
-
-		// copy discipline
-		var srcs []string
-		for _, in := range Instrs(fn, p.PlainCalls("os.(*File).Seek")) {
-			srcs = append(srcs, c.argR(in, 1))
-		}
-		c.ExpectAll("copy/"+short+"/offsets-from-copy", srcs, pat("(make(map[uint32]int64, builtin.len(p0.wal.frameOffsets))[@@]#0 + 24)")+"|"+pat("((@@ - 1) * p0.pageSize)"), 2,
-			"WAL pages are read at offsets taken from the copied overlay (+24 byte frame header); database pages at (pgno-1)*pageSize", "")
-		c.Guarded("copy/"+short+"/overlay-decides-source", f.name, func(in ssa.Instruction) bool {
-			return p.PlainCalls("os.(*File).Seek")(in) && strings.Contains(c.argR(in, 0), "WALPath")
-		}, gs(GP("make(map[uint32]int64, builtin.len(p0.wal.frameOffsets))[@@]#1", true)), 1, "a page is read from the WAL exactly when the copied overlay has an offset for it", "")
-	}
+	c.captureFamily("litefs.(*DB).WriteSnapshotTo", false)
+	c.captureFamily("litefs.(*DB).Export", true)
 
 	// snapshot self-check + header
 	c.snapshotSelfCheck("selfcheck")
@@ -126,4 +49,88 @@ func (c *Ctx) ckptGate(key string) {
 	}}, 1, "a guard's TryLock is attempted only if the lock is not CKPT, or nobody holds the WAL WRITE lock, or this owner holds it exclusively",
 		"a checkpoint lock granted to one connection while another holds the WRITE lock lets a passive checkpoint copy frames into the database before the LTX for them exists")
 	c.EdgeReturns(key+"/refusal", tl, GP("(2 == litefs.(*RWMutexGuard).State(&litefs.(*DB).CreateGuardSetIfNotExists(p0, p2).write))", false), "nil", 1, "the gate refuses with (false, nil)", "")
+}
+
+// captureFamily: the lock protocol of a snapshot-style reader (shared by C10 and C16).
+func (c *Ctx) captureFamily(name string, export bool) {
+	p := c.P
+	walMode := GP("(1 == litefs.(*DB).Mode(p0))", true)
+	rbMode := GP("(1 == litefs.(*DB).Mode(p0))", false)
+	f := struct {
+		name   string
+		export bool
+	}{name, export}
+	short := f.name[strings.LastIndex(f.name, ".")+1:]
+	fn := c.F(f.name)
+	if !c.need("capture/"+short, "K9", "function resolves", fn, f.name) {
+		return
+	}
+	capture := func(in ssa.Instruction) bool {
+		if p.PlainCalls("litefs.(*DB).Pos", "litefs.(*DB).PageN")(in) {
+			return true
+		}
+		switch x := in.(type) {
+		case *ssa.UnOp:
+			if fa, ok := x.X.(*ssa.FieldAddr); ok && x.Op == token.MUL {
+				fp := fieldPathOf(fa)
+				return fp == "litefs.DB.pageSize" || fp == "litefs.DB.wal.frameOffsets"
+			}
+		}
+		return false
+	}
+	c.LockAt("capture/"+short+"/shared", f.name, capture, map[string]string{"shared": "S"}, nil, 4,
+		"position, page count, page size and the WAL frame-offset overlay are read while the SHARED database lock is held", "a rollback-journal writer holds SHARED exclusively while it changes the file: without SHARED the capture can see a half-committed image")
+	c.LockAt("capture/"+short+"/wal-write-lock", f.name, capture, map[string]string{"write": "X"}, gs(walMode), 4,
+		"in WAL mode the capture happens while the WAL WRITE lock is held exclusively", "a WAL commit advances position, page count and overlay in several steps under the WRITE lock: capturing without it can mix two positions")
+	c.LockAt("capture/"+short+"/rollback-no-write-lock", f.name, capture, map[string]string{"write": "U"}, gs(rbMode), 4,
+		"in rollback mode the WRITE lock is not taken (sanity of the mode split)", "")
+	relWrite := func(in ssa.Instruction) bool {
+		return p.PlainCalls("litefs.(*RWMutexGuard).Unlock")(in) && strings.HasSuffix(c.argR(in, 0), ".write")
+	}
+	c.NoPath("capture/"+short+"/nothing-after-write-release", f.name, relWrite, capture, 1,
+		"after the WRITE lock was released none of the captured quantities is read again", "the page loop must use the captured size and overlay, not the live ones")
+	c.Before("capture/"+short+"/write-released", f.name, p.PlainCalls("io.ReadFull"), relWrite, 1, "the WRITE lock is released before pages are read", "holding it for the whole snapshot blocks all writers")
+
+	// page reads
+	pageRead := p.PlainCalls("io.ReadFull", "os.(*File).Seek")
+	want := map[string]string{"shared": "S", "read0": "S", "read1": "S", "read2": "S", "read3": "S", "read4": "S", "write": "U"}
+	if f.export {
+		want["ckpt"], want["recover"] = "S", "S"
+	}
+	c.LockAt("readlocks/"+short, f.name, pageRead, want, nil, 4,
+		"every page read happens with SHARED and all five WAL READ locks held shared"+map[bool]string{true: " (export: plus CKPT and RECOVER)", false: ""}[f.export],
+		"the READ locks block WAL restart and checkpoint back-fill while pages are read from the captured frame offsets; SHARED blocks rollback-mode writers")
+	if !f.export {
+		relCR := func(in ssa.Instruction) bool {
+			if !p.PlainCalls("litefs.(*RWMutexGuard).Unlock")(in) {
+				return false
+			}
+			a := c.argR(in, 0)
+			return strings.HasSuffix(a, ".ckpt") || strings.HasSuffix(a, ".recover")
+		}
+		c.LockAt("readlocks/"+short+"/ckpt-recover-released-late", f.name, relCR, map[string]string{"read0": "S", "read1": "S", "read2": "S", "read3": "S", "read4": "S"}, nil, 2,
+			"CKPT and RECOVER are released only after all five READ locks are held", "between releasing CKPT and holding the READ locks a checkpoint could overwrite pages the snapshot is about to read")
+	}
+	// release discipline
+	c.OnlyIn("release/"+short+"/no-explicit-full-unlock", func(in ssa.Instruction) bool {
+		_, isCall := in.(*ssa.Call)
+		return isCall && p.Calls("litefs.(*GuardSet).Unlock", "litefs.(*GuardSet).UnlockDatabase", "litefs.(*GuardSet).UnlockSHM")(in) && p.FuncName(topFunc(in.Parent())) == f.name
+	}, []string{"(none)"}, 0, "the guard set is never released explicitly in "+short, "")
+	c.Before("release/"+short+"/deferred", f.name, p.PlainCalls("litefs.(*RWMutexGuard).RLock", "litefs.(*RWMutexGuard).Lock"), func(in ssa.Instruction) bool {
+		d, ok := in.(*ssa.Defer)
+		return ok && p.CalleeName(d.Common()) == "litefs.(*GuardSet).Unlock"
+	}, 8, "the full release is deferred before the first lock is taken", "an error exit that leaks a guard blocks every writer forever")
+	c.ErrHandled("release/"+short+"/lock-errors", f.name, p.PlainCalls("litefs.(*RWMutexGuard).RLock", "litefs.(*RWMutexGuard).Lock"), pageRead, 8, "a lock that could not be acquired (context ended) aborts the operation before any page is read", "")
+
+	// copy discipline
+	var srcs []string
+	for _, in := range Instrs(fn, p.PlainCalls("os.(*File).Seek")) {
+		srcs = append(srcs, c.argR(in, 1))
+	}
+	c.ExpectAll("copy/"+short+"/offsets-from-copy", srcs, pat("(make(map[uint32]int64, builtin.len(p0.wal.frameOffsets))[@@]#0 + 24)")+"|"+pat("((@@ - 1) * p0.pageSize)"), 2,
+		"WAL pages are read at offsets taken from the copied overlay (+24 byte frame header); database pages at (pgno-1)*pageSize", "")
+	c.Guarded("copy/"+short+"/overlay-decides-source", f.name, func(in ssa.Instruction) bool {
+		return p.PlainCalls("os.(*File).Seek")(in) && strings.Contains(c.argR(in, 0), "WALPath")
+	}, gs(GP("make(map[uint32]int64, builtin.len(p0.wal.frameOffsets))[@@]#1", true)), 1, "a page is read from the WAL exactly when the copied overlay has an offset for it", "")
+
 }
